@@ -59,6 +59,7 @@ MUTANTS = [
     ("M38", "registration options helper ignores documentSelector", [(H, '    return "id" in object_ or "documentSelector" in object_', '    return "id" in object_')], ["C01", "C14", "C03"], "break"),
     ("M39", "hand edit of lib.rs (serde rename typo)", [("packages/rust/lsprotocol/src/lib.rs", '#[serde(rename = "textDocument/willSaveWaitUntil")]', '#[serde(rename = "textDocument/willSaveWaituntil")]')], ["C05"], "break"),
     ("M40", "rust: serde rename of a method variant wrong in the generator (regeneration not done)", [("generator/plugins/rust/rust_commons.py", "RUST_KEYWORDS = [", "RUST_KEYWORDS = [\n    \"range\",")], ["C05", "C07"], "break"),
+    ("M41", "dotnet: response of a typeName-less request points at itself again", [("generator/plugins/dotnet/dotnet_classes.py", 'f"[LSPResponse(typeof({struct.name}))]",', 'f"[LSPResponse(typeof({request_name}))]",')], ["C06"], "break"),
     # ---- property-preserving refactors: every check must stay silent
     ("R01", "two hook registrations swapped in the list", [(H, "        (Optional[Union[bool, lsp_types.HoverOptions]], _hover_provider_hook),\n", ""), (H, "        (Optional[Union[bool, lsp_types.RenameOptions]], _rename_provider_hook),\n", "        (Optional[Union[bool, lsp_types.RenameOptions]], _rename_provider_hook),\n        (Optional[Union[bool, lsp_types.HoverOptions]], _hover_provider_hook),\n")], ["C01", "C02", "C03", "C10", "C11", "C13", "C14", "C15", "C19"], "silent"),
     ("R02", "different exception type for unknown edit kind", [(H, '                raise ValueError("Unknown edit kind: ", object_)', '                raise TypeError("Unknown edit kind: ", object_)')], ["C01", "C03", "C11", "C14"], "silent"),
